@@ -58,7 +58,8 @@ func (r *KeyRing) copyKey(other *asn1.Key) (*asn1.Key, error) {
 	if other.ValidSince.After(other.ValidUntil) {
 		return nil, api.ErrInvalidCryptoperiod
 	}
-	if len(other.Data) == 0 {
+	// A destroyed key keeps its place in the ring but has no data left.
+	if len(other.Data) == 0 && api.KeyState(other.State) != api.KeyDestroyed {
 		return nil, api.ErrNoKeyData
 	}
 	key := *other
